@@ -41,6 +41,11 @@ fn main() {
     if tc.contains("pub fn arm_expiry") {
         println!("cargo:rustc-cfg=hook_expiry");
     }
+    // Hook H5 (first poll at a chosen node, node entries after the stop).
+    println!("cargo::rustc-check-cfg=cfg(hook_at_node)");
+    if tc.contains("pub fn arm_at_node") {
+        println!("cargo:rustc-cfg=hook_at_node");
+    }
     // The completion latch between the search thread and `stop` is exercised directly by C05 if it
     // still has the shape new / set / wait / reset.
     println!("cargo::rustc-check-cfg=cfg(latch_api)");
